@@ -14,10 +14,17 @@ package main
 import (
 	"bytes"
 	"context"
+	"crypto/ecdsa"
+	"crypto/elliptic"
+	"crypto/rand"
+	"crypto/tls"
+	"crypto/x509"
+	"crypto/x509/pkix"
 	"encoding/json"
 	"errors"
 	"fmt"
 	"io"
+	"math/big"
 	"net"
 	"os"
 	"sort"
@@ -35,6 +42,7 @@ import (
 
 	"google.golang.org/grpc"
 	"google.golang.org/grpc/codes"
+	"google.golang.org/grpc/credentials"
 	"google.golang.org/grpc/credentials/insecure"
 	healthpb "google.golang.org/grpc/health/grpc_health_v1"
 	tpb "google.golang.org/grpc/interop/grpc_testing"
@@ -49,6 +57,7 @@ type c16Route struct {
 	Host string   `json:"host"`
 	Path []string `json:"path"`
 	Be   string   `json:"be"`
+	Scheme string `json:"scheme,omitempty"` // "grpcs": the target URL is grpcs://, the backend speaks TLS (self-signed, tlsskipverify)
 	Zero bool     `json:"zero,omitempty"` // in the table with weight 0: its sibling on the same route has all the traffic
 }
 
@@ -73,6 +82,7 @@ type c16Step struct {
 	Call   *c16Call   `json:"call,omitempty"`
 	Be     string     `json:"be,omitempty"`
 	Conn   string     `json:"conn,omitempty"`
+	Scheme string     `json:"scheme,omitempty"` // scheme of the target URL of Be
 	Bgot   []string   `json:"bgot,omitempty"`
 	Beof   bool       `json:"beof,omitempty"`
 	Cgot   []string   `json:"cgot,omitempty"`
@@ -285,6 +295,7 @@ type c16Env struct {
 	cc       *grpc.ClientConn
 	unknown  int64
 	late     int64
+	secure   map[string]bool // backends behind a grpcs:// target
 }
 
 type c16Backend struct {
@@ -292,6 +303,7 @@ type c16Backend struct {
 	name    string
 	addr    string
 	srv     *grpc.Server
+	opts    []grpc.ServerOption // transport credentials of a backend behind a grpcs:// target
 	env     *c16Env
 	accepts int64
 	open    int64
@@ -350,7 +362,7 @@ func (b *c16Backend) upAgain() error {
 	if err != nil {
 		return err
 	}
-	b.srv = grpc.NewServer()
+	b.srv = grpc.NewServer(b.opts...)
 	tpb.RegisterTestServiceServer(b.srv, b)
 	healthpb.RegisterHealthServer(b.srv, &c16Health{b})
 	go b.srv.Serve(&c16Listener{Listener: ln, be: b})
@@ -714,18 +726,50 @@ func c16Config(grace time.Duration, limits string) (*config.Config, error) {
 }
 
 func c16NewEnv(seed int64, names []string) (*c16Env, error) {
-	return c16NewEnvG(seed, names, c16GrpcGrace, "")
+	return c16NewEnvG(seed, names, c16GrpcGrace, "", nil)
 }
 
-func c16NewEnvG(seed int64, names []string, grace time.Duration, limits string) (*c16Env, error) {
-	env := &c16Env{seed: seed, runs: map[string]*c16Run{}, backends: map[string]*c16Backend{}}
+// c16SelfSigned makes the certificate of a TLS backend (the targets carry tlsskipverify=true).
+func c16SelfSigned() (tls.Certificate, error) {
+	key, err := ecdsa.GenerateKey(elliptic.P256(), rand.Reader)
+	if err != nil {
+		return tls.Certificate{}, err
+	}
+	tmpl := &x509.Certificate{
+		SerialNumber: big.NewInt(1),
+		Subject:      pkix.Name{CommonName: "c16"},
+		NotBefore:    time.Now().Add(-time.Hour),
+		NotAfter:     time.Now().Add(24 * time.Hour),
+		KeyUsage:     x509.KeyUsageDigitalSignature,
+		ExtKeyUsage:  []x509.ExtKeyUsage{x509.ExtKeyUsageServerAuth},
+		IPAddresses:  []net.IP{net.ParseIP("127.0.0.1")},
+	}
+	der, err := x509.CreateCertificate(rand.Reader, tmpl, tmpl, &key.PublicKey, key)
+	if err != nil {
+		return tls.Certificate{}, err
+	}
+	return tls.Certificate{Certificate: [][]byte{der}, PrivateKey: key}, nil
+}
+
+// secure: the backends that are reached through a grpcs:// target URL (they speak TLS only)
+func c16NewEnvG(seed int64, names []string, grace time.Duration, limits string, secure map[string]bool) (*c16Env, error) {
+	env := &c16Env{seed: seed, runs: map[string]*c16Run{}, backends: map[string]*c16Backend{}, secure: secure}
 	for _, n := range names {
+		var sopts []grpc.ServerOption
+		if secure[n] {
+			cert, err := c16SelfSigned()
+			if err != nil {
+				env.close()
+				return nil, err
+			}
+			sopts = append(sopts, grpc.Creds(credentials.NewTLS(&tls.Config{Certificates: []tls.Certificate{cert}})))
+		}
 		ln, err := net.Listen("tcp", "127.0.0.1:0")
 		if err != nil {
 			env.close()
 			return nil, err
 		}
-		b := &c16Backend{name: n, addr: ln.Addr().String(), env: env, srv: grpc.NewServer()}
+		b := &c16Backend{name: n, addr: ln.Addr().String(), env: env, srv: grpc.NewServer(sopts...), opts: sopts}
 		tpb.RegisterTestServiceServer(b.srv, b)
 		healthpb.RegisterHealthServer(b.srv, &c16Health{b})
 		env.backends[n] = b
@@ -741,7 +785,13 @@ func c16NewEnvG(seed int64, names []string, grace time.Duration, limits string) 
 	// the listener is started the way main starts it: through proxy.ListenAndServeGRPC with newGrpcProxy's
 	// options (the registry of servers is keyed by the configured address: an explicit free port)
 	env.created = time.Now()
-	opts := newGrpcProxy(cfg, nil, sh)
+	// main hands newGrpcProxy the TLS configuration of the listener; fabio dials a grpcs:// target with TLS only
+	// if there is one.  The listener itself stays plaintext here.
+	var upstream *tls.Config
+	if len(secure) > 0 {
+		upstream = &tls.Config{}
+	}
+	opts := newGrpcProxy(cfg, upstream, sh)
 	for try := 0; try < 5 && env.paddr == ""; try++ {
 		pl, err := net.Listen("tcp", "127.0.0.1:0")
 		if err != nil {
@@ -843,6 +893,13 @@ func (e *c16Env) setTable(rs []c16Route) error {
 					w = " weight 1.0" // the sibling without a weight is left with 0
 				}
 			}
+		}
+		if (r.Scheme == "grpcs") != e.secure[r.Be] {
+			return fmt.Errorf("backend %q: target scheme %q does not match how the backend was started", r.Be, r.Scheme)
+		}
+		if r.Scheme == "grpcs" {
+			fmt.Fprintf(&b, "route add svc-%s %s%s grpcs://%s%s opts \"proto=grpcs tlsskipverify=true\"\n", r.Be, r.Host, p, be.addr, w)
+			continue
 		}
 		fmt.Fprintf(&b, "route add svc-%s %s%s grpc://%s%s opts \"proto=grpc\"\n", r.Be, r.Host, p, be.addr, w)
 	}
@@ -1175,6 +1232,12 @@ func (e *c16Env) runCallB(st *c16Step, id, drive string, barrier *c16Barrier) (o
 					obs.Resps = append(obs.Resps, m)
 				}
 			case "t":
+				// the spec's SetTableMid / CleanupTickMid happen to a call that is on its connection: the backend's
+				// handler has been entered (else the table change could overtake the routing of this very call)
+				select {
+				case <-run.entered:
+				case <-run.done:
+				}
 				if st.midTable != nil {
 					if err := st.midTable(nt); err != nil {
 						note("table change during the call: %v", err)
@@ -1182,6 +1245,10 @@ func (e *c16Env) runCallB(st *c16Step, id, drive string, barrier *c16Barrier) (o
 					nt++
 				}
 			case "k":
+				select {
+				case <-run.entered:
+				case <-run.done:
+				}
 				if st.midTick != nil {
 					st.midTick()
 				}
@@ -1330,11 +1397,39 @@ type c16Stats struct {
 	calls, ticks, msgs, bursts, outages, flaps, degenerate int64
 }
 
+// c16Secure returns the backends of the behaviour whose target URL is grpcs://.
+func c16Secure(b *c16Behaviour) map[string]bool {
+	m := map[string]bool{}
+	for _, s := range b.Steps {
+		for _, r := range s.Table {
+			if r.Scheme == "grpcs" {
+				m[r.Be] = true
+			}
+		}
+		for _, t := range s.Tabs {
+			for _, r := range t {
+				if r.Scheme == "grpcs" {
+					m[r.Be] = true
+				}
+			}
+		}
+	}
+	if len(m) == 0 {
+		return nil
+	}
+	return m
+}
+
 func c16Backends(b *c16Behaviour) []string {
 	set := map[string]bool{"b1": true, "b2": true}
 	for _, s := range b.Steps {
 		for _, r := range s.Table {
 			set[r.Be] = true
+		}
+		for _, t := range s.Tabs {
+			for _, r := range t {
+				set[r.Be] = true
+			}
 		}
 	}
 	var ns []string
@@ -1351,7 +1446,7 @@ func c16ReplaySeq(b *c16Behaviour, seed int64, drive string, stats *c16Stats) (f
 	if b.Flap {
 		grace = c16FlapGrace
 	}
-	env, err := c16NewEnvG(seed, c16Backends(b), grace, b.Limits)
+	env, err := c16NewEnvG(seed, c16Backends(b), grace, b.Limits, c16Secure(b))
 	idp := "s"
 	if b.Limits != "" {
 		idp = "L"
